@@ -54,7 +54,7 @@ func (w *lifeWorld) sym(t string) string {
 	switch w.kind {
 	case "func":
 		return fn.Pkg + "." + strings.ToUpper(t)
-	case "method":
+	case "method", "fmvalue":
 		return fn.Pkg + ".(*S)." + strings.ToUpper(t)
 	case "uefunc":
 		return fn.Pkg + "." + t
@@ -108,6 +108,10 @@ func (w *lifeWorld) lookupHandle(b, t string) mocker.ExportedMocker {
 		return bl.Func(map[string]interface{}{"f": fn.GenF[int], "g": fn.GenG[int], "h": fn.GenH[int]}[t])
 	case "method":
 		return bl.Struct(&fn.S{}).Method(strings.ToUpper(t))
+	case "fmvalue":
+		// a METHOD VALUE handed to Func (mocker.go has a branch for names ending in -fm: the method is mocked by name); the
+		// callbacks are written like the method value's own type, without a receiver
+		return bl.Func(map[string]interface{}{"f": fmInst.F, "g": fmInst.G, "h": fmInst.H}[t])
 	case "uefunc":
 		return bl.Pkg(fn.Pkg).ExportFunc(t).As(func(int) int { return 0 })
 	default:
@@ -156,6 +160,8 @@ func (w *lifeWorld) callOrigin(t string, a int) int {
 		return map[string]func(int) int{"f": fn.OUF, "g": fn.OUG, "h": fn.OUH}[t](a)
 	}
 }
+
+var fmInst = &fn.S{Tag: 7}
 
 var cbnum = map[string]int{"c1": 1, "c2": 2}
 
@@ -329,7 +335,7 @@ func (w *lifeWorld) call(t string, a int) (res int) {
 			return -1 // an instantiation of a different shape was affected
 		}
 		return map[string]func() int{"f": fn.GenF[int], "g": fn.GenG[int], "h": fn.GenH[int]}[t]()
-	case "method":
+	case "method", "fmvalue":
 		s := &fn.S{Tag: 7}
 		switch t {
 		case "f":
@@ -474,5 +480,6 @@ func init() {
 	worlds["life-keep"] = func() []World {
 		return []World{&lifeWorld{kind: "func"}, &lifeWorld{kind: "method"}, &lifeWorld{kind: "uefunc"}, &lifeWorld{kind: "uemethod"}, &lifeWorld{kind: "generic"}}
 	}
+	worlds["life-fmvalue"] = func() []World { return []World{&lifeWorld{kind: "fmvalue"}} }
 	worlds["life-generic"] = func() []World { return []World{&lifeWorld{kind: "generic"}} }
 }
